@@ -145,3 +145,7 @@ for _f in sorted(_glob.glob(_os.path.join(_os.path.dirname(_os.path.abspath(__fi
     _ns = {"TRACER_BASE": TRACER_BASE, "TRACER_INSTRUMENT": TRACER_INSTRUMENT}
     exec(open(_f).read(), _ns)
     CHECKS[_os.path.basename(_f)[len("vconfig_extra_"):-3]] = _ns["CHECK"]
+
+# second parts of checks whose configuration lives in an extra file
+CHECKS["C20"]["extra_parts"] = ["C20T"]  # decompressors obtained by the tracer, concurrent traced operations (tracer test binary)
+CHECKS["C17"]["extra_parts"] = ["C17E"]  # the raw body encoders under concurrent use (engine S, ./internal test binary)
